@@ -193,8 +193,10 @@ def mutate(rng, v, depth=0, keys=MKEYS):
         else: return Obj([('a', 1)])
         return v
     if isinstance(v, (int, float)) and not isinstance(v, bool):
-        k = rng.randrange(4); d = float(v)
-        if k == 0: return bits_dbl((dbl_bits(d) + 1) & (2 ** 64 - 1)) if d == d and abs(d) < 1e300 else 1
+        k = rng.randrange(5); d = float(v)
+        if k == 4 and d == int(d) and 1 <= abs(d) < 2 ** 31:
+            return bits_dbl(dbl_bits(d) - 1)             # within compare_double's tolerance, but (int) differs
+        if k == 0 or k == 4: return bits_dbl((dbl_bits(d) + 1) & (2 ** 64 - 1)) if d == d and abs(d) < 1e300 else 1
         if k == 1: return d + 1 if abs(d) < 1e15 else 0
         if k == 2: return Obj([('a', v)])                                     # scalar -> object
         return 'x'
@@ -238,7 +240,7 @@ def generate(ctx):
     for v in [N, 1, 'x', [], Obj(), Obj([('a', N)])]:
         add_gen('NULLARG', v, 1, ['null-from']); add_gen(v, 'NULLARG', 1, ['null-to']); add_gen(v, v, 1, ['identical'])
     # --- (target, patch)
-    n = 420 if quick else 6000
+    n = 1200 if quick else 12000
     for i in range(n):
         cs = 1 if rng.random() < 0.75 else 0
         depth = rng.choice([1, 2, 3, 4])
@@ -252,7 +254,7 @@ def generate(ctx):
         add_apply(target, patch, cs, [tag] + (['dup-keys'] if dup else []))
         if i % 9 == 0: add_apply('NULLARG', patch, cs, [tag, 'null-target'])
     # --- (from, to)
-    n = 420 if quick else 6000
+    n = 1200 if quick else 12000
     for i in range(n):
         cs = 1 if rng.random() < 0.75 else 0
         depth = rng.choice([1, 2, 3, 4])
@@ -268,6 +270,32 @@ def generate(ctx):
         if rng.random() < 0.8: to = strip_nulls(to)
         else: tag += '+null-members'
         add_gen(frm, to, cs, [tag] + (['dup-keys'] if dup else []))
+    # --- keys that differ only by case, below the first level (the recursion must keep its case sensitivity)
+    CK = [('a', 'A'), ('k1', 'K1'), ('ab', 'aB'), ('z', 'Z'), ('ab', 'Ab')]
+    for i in range(60 if quick else 600):
+        lo, up = rng.choice(CK)
+        inner_f = Obj([(lo, rand_doc(rng, 1, nulls=False)), (up, rand_doc(rng, 1, nulls=False))])
+        if rng.random() < 0.5: inner_f.append((rng.choice(['m', 'q']), rng.choice(MNUMS)))
+        inner_t = Obj([(k, v) for k, v in inner_f])
+        r = rng.randrange(4)
+        if r == 0: inner_t = Obj([(up, inner_f[0][1]), (lo, inner_f[1][1])] + list(inner_f[2:]))          # values swapped between the two spellings
+        elif r == 1: inner_t = Obj([(k, v) for k, v in inner_f if k != lo])                               # one spelling removed
+        elif r == 2: inner_t = Obj([(k, (rand_doc(rng, 1, nulls=False) if k == up else v)) for k, v in inner_f])
+        else: inner_t = Obj([(k.swapcase() if k in (lo, up) else k, v) for k, v in inner_f][::-1])
+        wrap = rng.choice([1, 2, 3])
+        f, t = inner_f, inner_t
+        for _ in range(wrap):
+            key = rng.choice(['o', 'O', 'n'])
+            f = Obj([(key, f), ('s', 1)]); t = Obj([('s', 1), (key, t)])
+        rng.shuffle(f)
+        cs = 1 if rng.random() < 0.8 else 0
+        add_gen(f, t, cs, ['case-nested']); add_apply(f, derive_patch(rng, f, 3), cs, ['case-nested'])
+    # --- numbers equal within the tolerance of compare_double whose integer views differ, at depth
+    for i in range(40 if quick else 400):
+        x = float(rng.choice([1, 2, 3, 7, 42, 100, 65536, 2147483647, -1, -5]))
+        y = rng.choice([bits_dbl(dbl_bits(x) - 1), bits_dbl(dbl_bits(x) + 1), x])
+        f = Obj([('n', x), ('o', Obj([('n', x), ('l', [x])]))]); t = Obj([('n', y), ('o', Obj([('n', y), ('l', [y])]))])
+        add_gen(f, t, 1, ['number-tolerance']); add_gen(t, f, 1, ['number-tolerance'])
     return cases
 
 def rfc7396_value(t, p):
